@@ -145,6 +145,47 @@ type objInfo struct {
 	seq uint64
 }
 
+const (
+	clInfo uint8 = iota
+	clMutex
+	clChan
+	clWG
+	clCond
+	clSem
+)
+
+// objState is the model state of one object (one class per entry).
+type objState struct {
+	key   uintptr
+	class uint8
+	info  objInfo
+	mu    muState
+	ch    chState
+	wg    int64
+	cond  condState
+	sem   semState
+}
+
+//go:norace
+func (s *Sched) lookup(class uint8, key uintptr) *objState {
+	for _, o := range s.tab {
+		if o.key == key && o.class == class {
+			return o
+		}
+	}
+	return nil
+}
+
+//go:norace
+func (s *Sched) entry(class uint8, key uintptr) (*objState, bool) {
+	if o := s.lookup(class, key); o != nil {
+		return o, false
+	}
+	o := &objState{key: key, class: class}
+	s.tab = append(s.tab, o)
+	return o, true
+}
+
 // Config of one execution.
 type Config struct {
 	Horizon   int64 // virtual ns; 0 = none
@@ -166,14 +207,13 @@ type Sched struct {
 	prefix []int
 	points []ChoicePoint
 
-	mus   map[uintptr]*muState
-	chans map[uintptr]*chState
-	wgs   map[uintptr]*int64
-	conds map[uintptr]*condState
-	sems  map[uintptr]*semState
-	objs  map[uintptr]*objInfo
-	keep  []any
+	// model state: small slice tables searched linearly.  No Go maps here: the runtime's map functions
+	// report accesses to the race detector on behalf of their caller even when the caller is
+	// //go:norace, and this state is touched by whichever goroutine holds the token.
+	tab  []*objState
+	keep []any
 
+	nobj  int
 	fp    uint64
 	fps   []uint64 // fingerprint after every step (for state counting)
 	steps int
@@ -237,12 +277,12 @@ func Unwinding() bool {
 
 //go:norace
 func (s *Sched) obj(key uintptr, g *G) *objInfo {
-	o := s.objs[key]
-	if o == nil {
-		o = &objInfo{id: len(s.objs) + 1, oh: mix(g.gh, uint64(g.nops)+0x51ed)}
-		s.objs[key] = o
+	o, fresh := s.entry(clInfo, key)
+	if fresh {
+		s.nobj++
+		o.info = objInfo{id: s.nobj, oh: mix(g.gh, uint64(g.nops)+0x51ed)}
 	}
-	return o
+	return &o.info
 }
 
 //go:norace
@@ -255,22 +295,17 @@ func (s *Sched) touch(key uintptr, g *G, ev uint64) {
 
 //go:norace
 func (s *Sched) mu(k uintptr) *muState {
-	m := s.mus[k]
-	if m == nil {
-		m = &muState{}
-		s.mus[k] = m
-	}
-	return m
+	o, _ := s.entry(clMutex, k)
+	return &o.mu
 }
 
 //go:norace
 func (s *Sched) ch(k uintptr, n, c int) *chState {
-	m := s.chans[k]
-	if m == nil {
-		m = &chState{n: n, cap: c}
-		s.chans[k] = m
+	o, fresh := s.entry(clChan, k)
+	if fresh {
+		o.ch = chState{n: n, cap: c}
 	}
-	return m
+	return &o.ch
 }
 
 //go:norace
@@ -278,8 +313,8 @@ func (s *Sched) chClosed(k uintptr) bool {
 	if k == 0 {
 		return false
 	}
-	m := s.chans[k]
-	return m != nil && m.closed
+	o := s.lookup(clChan, k)
+	return o != nil && o.ch.closed
 }
 
 // ModelChanPush records a send performed by a timer on the channel with the given key.
@@ -358,14 +393,14 @@ func (s *Sched) enabled(op *Op) bool {
 	case KSleep:
 		return s.now >= op.N
 	case KWGWait:
-		p := s.wgs[op.Key]
-		return p == nil || *p <= 0
+		o := s.lookup(clWG, op.Key)
+		return o == nil || o.wg <= 0
 	case KCondPark:
-		c := s.conds[op.Key]
-		return c != nil && op.N < c.notified
+		o := s.lookup(clCond, op.Key)
+		return o != nil && op.N < o.cond.notified
 	case KSemAcquire:
-		m := s.sems[op.Key]
-		if m != nil && m.cur+op.N <= m.size {
+		o := s.lookup(clSem, op.Key)
+		if o != nil && o.sem.cur+op.N <= o.sem.size {
 			return true
 		}
 		return s.chClosed(op.Key2)
@@ -612,49 +647,31 @@ func (s *Sched) grant(g *G) {
 			}
 		}
 	case KWGAdd:
-		p := s.wgs[op.Key]
-		if p == nil {
-			p = new(int64)
-			s.wgs[op.Key] = p
-		}
-		*p += op.N
+		o, _ := s.entry(clWG, op.Key)
+		o.wg += op.N
 	case KCondReg:
-		c := s.conds[op.Key]
-		if c == nil {
-			c = &condState{}
-			s.conds[op.Key] = c
-		}
-		op.Result = c.next
-		c.next++
+		o, _ := s.entry(clCond, op.Key)
+		op.Result = o.cond.next
+		o.cond.next++
 	case KCondSignal:
-		c := s.conds[op.Key]
-		if c != nil && c.notified < c.next {
-			c.notified++
+		if o := s.lookup(clCond, op.Key); o != nil && o.cond.notified < o.cond.next {
+			o.cond.notified++
 		}
 	case KCondBroadcast:
-		c := s.conds[op.Key]
-		if c != nil {
-			c.notified = c.next
+		if o := s.lookup(clCond, op.Key); o != nil {
+			o.cond.notified = o.cond.next
 		}
-	case KSemAcquire:
-		m := s.sems[op.Key]
-		if m != nil && m.cur+op.N <= m.size {
-			m.cur += op.N
-			op.Result = 1
-		} else {
-			op.Result = 0
-		}
-	case KSemTry:
-		m := s.sems[op.Key]
-		if m != nil && m.cur+op.N <= m.size {
-			m.cur += op.N
+	case KSemAcquire, KSemTry:
+		o := s.lookup(clSem, op.Key)
+		if o != nil && o.sem.cur+op.N <= o.sem.size {
+			o.sem.cur += op.N
 			op.Result = 1
 		} else {
 			op.Result = 0
 		}
 	case KSemRelease:
-		if m := s.sems[op.Key]; m != nil {
-			m.cur -= op.N
+		if o := s.lookup(clSem, op.Key); o != nil {
+			o.sem.cur -= op.N
 		}
 	}
 	if op.Ref != nil {
@@ -684,7 +701,8 @@ func (s *Sched) grant(g *G) {
 //go:norace
 func RegisterSem(key uintptr, size int64) {
 	if S != nil {
-		S.sems[key] = &semState{size: size}
+		o, _ := S.entry(clSem, key)
+		o.sem = semState{size: size}
 	}
 }
 
@@ -952,9 +970,7 @@ func (s *Sched) waitEnd() {
 
 // Run executes body under the given choice prefix.
 func Run(prefix []int, cfg Config, body func()) *Result {
-	s := &Sched{cfg: cfg, prefix: prefix, endCh: make(chan struct{}),
-		mus: map[uintptr]*muState{}, chans: map[uintptr]*chState{}, wgs: map[uintptr]*int64{},
-		conds: map[uintptr]*condState{}, sems: map[uintptr]*semState{}, objs: map[uintptr]*objInfo{}}
+	s := &Sched{cfg: cfg, prefix: prefix, endCh: make(chan struct{})}
 	if s.cfg.MaxSteps == 0 {
 		s.cfg.MaxSteps = 2_000_000
 	}
